@@ -4,7 +4,12 @@
   Model: `RotoV/Model/Registration.lean` (`register` = the public item
   constructors + `Rt::add`; `Cfg.fixed` is the source as it is now, tied to the
   working tree by the correspondence run `harness/src/bin/c18.rs`;
-  `Cfg.pinned` is the pinned tree).  Helper lemmas: `RotoV/Lemmas/Registration.lean`.
+  `Cfg.pinned` is the pinned tree).  Helper lemmas: `RotoV/Lemmas/Registration.lean`
+  (invariant, T1), `RegistrationOps` (`add_eq`: `Rt::add` is five lists of guarded
+  insertions), `RegistrationClosed` (closed form of a pass, permutation
+  invariance), `RegistrationOrder` (T4), `RegistrationExact` / `RegistrationDefects` /
+  `RegistrationAccepts` (T2), `RegistrationReach` / `RegistrationOrigin` (T3).  The
+  theorems that mention the regenerated pass structure live in `Props/C18Passes.lean`.
 
   `library!`: the `use` declarations it accepts are `RotoV.Use.UseTree`
   (`RotoV/Model/UseTree.lean`); `flatten_use_tree` of `macros/src/lib.rs` is
